@@ -1,6 +1,8 @@
 """C12 -- aliases are emitted exactly once, where they define a name, for every term kind (DESIGN 2/C12)."""
 from __future__ import annotations
 
+import ast
+
 from ..model import AnalysisError, Program
 from ..report import Run
 from ..skel import (BUILDER_CLASSES, cond_mentions, count_marker, field_class, recv_path, render, root_attr,
@@ -92,6 +94,7 @@ def check(program: Program, run: Run) -> None:
     run.rule("R1 alias discipline per Term class: gated (on: exactly once, last; off: never)")
     run.rule("R2 operand slots: ctx.with_alias is Const False at every nested get_sql of a composite term")
     run.rule("R3 defining slots (_selects, _from, Join.item, _returns, _distinct_on): ctx.with_alias is Const True")
+    run.rule("R6 the alias set consulted by GROUP BY / ORDER BY is a re-iterable, per-object value: no one-shot iterator tested in a loop, no memo inherited by copies")
     run.rule("R5 (inherited from C08/R1c) the dialect's GROUP BY / ORDER BY alias policy reaches every entry path, top-level set operations included")
     run.rule("R4 alias references only under membership in the select list's aliases; fallback renders with alias off")
     run.assumptions += ["class-hierarchy resolution; user subclasses of Term are outside the repository"]
@@ -220,7 +223,20 @@ def check(program: Program, run: Run) -> None:
                 continue
             if isinstance(part, Hole) and show(part.value).endswith(".alias") and attr in show(part.value):
                 alias_holes += 1
-                guarded = cond_mentions(conds, lambda x: isinstance(x, Sym) and x.kind == "op" and x.args[0] == "in" and "_selects" in show(x.args[2]))
+                def _alias_source(e) -> bool:
+                    t = show(e)
+                    if "_selects" in t:
+                        return True
+                    # a property of a builder whose getter reads the select list's aliases
+                    if isinstance(e, Sym) and e.kind == "attr":
+                        for k in program.all_classes():
+                            g = k.methods.get(e.args[1])
+                            if g is not None and g.is_property:
+                                src_ = ast.unparse(g.node)
+                                if "_selects" in src_ and ".alias" in src_:
+                                    return True
+                    return False
+                guarded = cond_mentions(conds, lambda x: isinstance(x, Sym) and x.kind == "op" and x.args[0] == "in" and _alias_source(x.args[2]))
                 run.ob("C12/R4 alias reference guarded by membership in the select list's aliases", fq, guarded,
                        detail="; ".join(show(x) for x in conds)[:200])
                 if not guarded:
@@ -253,3 +269,16 @@ def check(program: Program, run: Run) -> None:
             run.finding("C12/alias-reference-policy:" + fd.key.split(":", 1)[1], "GROUP BY/ORDER BY names a select alias in a dialect that forbids it: " + fd.what, where=fd.where, rule="R5 (inherited from C08/R1c)")
     if n5 < 12:
         raise AnalysisError(f"instance count below floor: alias policy cells {n5}")
+
+    # ---- R6: `alias in (s.alias for s in self._selects)` inside the loop over the ORDER BY terms consumes the generator up
+    # to the first hit; a cached alias set is inherited by every builder copied from a rendered one
+    from ..families import memo_methods, one_shot_reuse_sites
+    sel_cls = program.cls("Selectable")
+    for f6, var, desc, node, why in one_shot_reuse_sites(program):
+        if f6.cls is not None and (f6.cls.is_subclass_of(sel_cls) or f6.cls is sel_cls) and f6.name.endswith("_sql"):
+            run.finding(f"C12/iterator-reused:{f6.qualname}:{var}", f"{f6.qualname} binds `{var}` to {desc}, which {why}; the membership test that decides between alias reference and full expression answers wrongly for later terms",
+                        where=f6.loc(node), rule="R6")
+    for f6, deco in memo_methods(program):
+        if f6.cls is not None and (f6.cls.is_subclass_of(sel_cls) or f6.cls is sel_cls):
+            run.finding(f"C12/memo-inherited:{f6.qualname}", f"{f6.qualname} is a {deco}: a builder derived from a rendered one answers with its ancestor's value (e.g. the ancestor's set of select aliases)", where=f6.loc(), rule="R6")
+    run.ob("C12/R6 alias set is re-iterable and per object", "Selectable renderers", True, nontrivial=False)
